@@ -2227,7 +2227,9 @@ class Series(ContainerOperand):
         Returns:
             :obj:`numpy.ndarray`
         '''
-        return ufunc_unique(self.values)
+        array = ufunc_unique(self.values)
+        array.flags.writeable = False
+        return array
 
     @doc_inject()
     def equals(self,
